@@ -36,6 +36,10 @@ PairOK ==
   (Done /\ T.kind = "pair") =>
     \* the perturbed unit is outstanding or excluded according to the specification's own split
     /\ Chk("perturbed_unit_is_outstanding_or_excluded", U \in fN \cup fX)
+    \* information flow at its source: the outlier detection models read only the units still in the running - a unit
+    \* a hard rule has set aside (and the perturbed unit is one of those, or outstanding) is not in their read set
+    /\ (EnabledT => Chk("turnout_outlier_fit_reads_excluded_unit", {T.obs1.fitT[k] : k \in DOMAIN T.obs1.fitT} \subseteq OutlierCandidates))
+    /\ (EnabledM => Chk("margin_outlier_fit_reads_excluded_unit", {T.obs1.fitM[k] : k \in DOMAIN T.obs1.fitM} \subseteq OutlierCandidates))
     \* both runs completed and returned the same rows
     /\ \A i \in Ids : Chk("same_unit_rows", T.obs0.utable[i].present = T.obs1.utable[i].present)
     \* every other unit: bit-for-bit identical row
